@@ -1,5 +1,6 @@
 """Contracts for CubicSplineND / QuinticSplineND / SepticSplineND (properties C01, C02, C04, C05, C06, C10, C13, C14)."""
 from base import *
+from ir import LV
 from speclib import ff, der, power, poly_der, seg_energy
 from fractions import Fraction
 from ppoly import same_contents_vec, same_contents_mat, _under
@@ -382,30 +383,141 @@ def make_block_contracts(cls):
     outs = ['p_out', 'q_out', 's_out'][:s - 1]
 
     class SolveInternalDerivatives(Contract):
-        """knot derivatives: boundary rows are the boundary states; interior rows come from the block-tridiagonal solve"""
+        """knot derivatives: boundary rows are the boundary states; at every interior knot the derivatives of order s..2s-2 of
+        the two adjacent Hermite pieces agree (the optimality conditions), proved through the block-Thomas factorisation"""
         key = cls + '.solveInternalDerivatives'
 
         def spec(self, S):
             D = S.cfg['DIM']
+            DS = dims(S)
+            b = s - 1
             P = S.v('P')
             n_pts = P.R
-            bc = S.v('boundary_')
-            S.requires((n_pts >= 2) & (n_pts <= NMAX + 1), 'at_least_two_points')
-            S.requires(S.v('time_powers_').size().eq(n_pts - 1) & S.v('point_diffs_').R.eq(n_pts - 1), 'sizes')
-            S.assume_nonzero_divisors_in('Inverse2x2', 'Inverse3x3')
-            S.assigns(*([S.v(o) for o in outs] + [S.v(x) for x in BLOCK_CACHES]))
-            for j, o in enumerate(outs):
-                X = S.v(o)
-                S.ensures(X.R.eq(n_pts), 'rows_%s' % o)
-                S.ensures(conj([X.at(0, d).eq(bc.fields['start_' + BC_FIELDS[j]].at(d, 0)) for d in range(D)]), 'first_row_is_start_%s' % BC_FIELDS[j])
-                S.ensures(conj([X.at(n_pts - 1, d).eq(bc.fields['end_' + BC_FIELDS[j]].at(d, 0)) for d in range(D)]), 'last_row_is_end_%s' % BC_FIELDS[j])
             nb = n_pts - 2
-            boundary_rows = lambda: conj([S.v(o).R.eq(n_pts) for o in outs] +
-                                         [S.v(o).at(0, d).eq(bc.fields['start_' + BC_FIELDS[j]].at(d, 0)) for j, o in enumerate(outs) for d in range(D)] +
-                                         [S.v(o).at(n_pts - 1, d).eq(bc.fields['end_' + BC_FIELDS[j]].at(d, 0)) for j, o in enumerate(outs) for d in range(D)])
-            S.loop(0, inv=lambda L: [('range', (L.i >= 0) & (L.i <= nb))], variant=lambda L: nb - L.i)
-            S.loop(1 if cls == 'QuinticSplineND' else 1, inv=lambda L: [('range', (L.i >= -1) & (L.i <= nb - 2))], variant=lambda L: L.i + 1)
-            S.loop(3 if cls == 'QuinticSplineND' else 3, inv=lambda L: [('range', (L.i >= 0) & (L.i <= nb)), ('boundary_rows', boundary_rows())], variant=lambda L: nb - L.i)
+            bc = S.v('boundary_')
+            pdv = S.v('point_diffs_')
+            Lc, Uc, Dinv, DTL = S.v('L_blocks_cache_'), S.v('U_blocks_cache_'), S.v('D_inv_cache_'), S.v('D_inv_T_mul_L_next_T_cache_')
+            rhs, sol = S.v('ws_rhs_mod_'), S.v('ws_solution_')
+            Xout = [S.v(o) for o in outs]
+            S.requires((n_pts >= 2) & (n_pts <= NMAX + 1), 'at_least_two_points')
+            S.requires(S.v('time_powers_').size().eq(n_pts - 1) & pdv.R.eq(n_pts - 1), 'sizes')
+            S.requires(S.forall(0, n_pts - 1, lambda i: [pdv.at(i, d).eq(P.at(i + 1, d) - P.at(i, d)) for d in DS]), 'point_diffs')
+            S.assume_nonzero_divisors_in('Inverse2x2', 'Inverse3x3')
+            S.terms(0, 1, nb - 1, nb, S.sk(0) - 1, S.sk(0) + 1, S.sk(0) + 2)
+            S.assigns(*(Xout + [S.v(x) for x in BLOCK_CACHES]))
+            Bl = lambda d: [bc.fields['start_' + BC_FIELDS[j]].at(d, 0) for j in range(b)]
+            Br = lambda d: [bc.fields['end_' + BC_FIELDS[j]].at(d, 0) for j in range(b)]
+            for j, X in enumerate(Xout):
+                S.ensures(X.R.eq(n_pts), 'rows_%s' % outs[j])
+                S.ensures(conj([X.at(0, d).eq(Bl(d)[j]) for d in range(D)]), 'first_row_is_start_%s' % BC_FIELDS[j])
+                S.ensures(conj([X.at(n_pts - 1, d).eq(Br(d)[j]) for d in range(D)]), 'last_row_is_end_%s' % BC_FIELDS[j])
+            knot = lambda k, d: [X.at(k, d) for X in Xout]
+
+            def kkt_rows(i, d):
+                # -jump of the derivatives of order s..2s-2 at interior knot i+1, in the affine form  L xp + D xc + U xn - r
+                BS = BlockSpec(S, cls, i, d)
+                g = vsub([a + b_ + c for a, b_, c in zip(mv(BS.L, knot(i, d)), mv(BS.D, knot(i + 1, d)), mv(BS.U, knot(i + 2, d)))], BS.rhs)
+                return g
+            for d in DS:
+                S.ensures(S.forall(0, nb, lambda i, d=d: [g.eq(0) for g in kkt_rows(i, d)], inst=[]),
+                          'optimality_conditions_at_interior_knots_%d' % d)
+            # ---- cached factor relations (also what the gradient proofs use)
+            Lm = lambda i: mat_of(Lc, i, b)
+            Um = lambda i: mat_of(Uc, i, b)
+            Dm = lambda i: mat_of(Dinv, i, b)
+            rv = lambda i, d: [rhs.at(E.const(i) * b + r, d) for r in range(b)]
+            sv = lambda i, d: [sol.at(E.const(i) * b + r, d) for r in range(b)]
+
+            def fwd_facts(i, d, case=None):
+                # case = (first, last) resolves the first/last-block alternatives (used by the per-case algebra lemmas)
+                BS = BlockSpec(S, cls, i, d)
+                i = E.const(i)
+                out = []
+                out += meq(Lm(i), BS.L) + meq(Um(i), BS.U)
+                first = mm(BS.D, Dm(i))
+                later = mm(msub(BS.D, mm(Lm(i), mm(Dm(i - 1), Um(i - 1)))), Dm(i))
+                r0 = vsub(BS.rhs, mv(Lm(i), Bl(d)))
+                r1 = vsub(BS.rhs, mv(Lm(i), mv(Dm(i - 1), rv(i - 1, d))))
+                corr = mv(Um(i), Br(d))
+                if case is None:
+                    out += [implies(i.eq(0), x) for x in meq(first, ident(b))]
+                    out += [implies(i > 0, x) for x in meq(later, ident(b))]
+                    for r in range(b):
+                        base = ite(i.eq(0), r0[r], r1[r])
+                        out.append(rv(i, d)[r].eq(base - ite(i.eq(nb - 1), corr[r], 0)))
+                    out += [implies(i > 0, x) for x in meq(mat_of(DTL, i - 1, b), tr_(mm(Lm(i), Dm(i - 1))))]
+                else:
+                    f, l = case
+                    out += meq(first if f else later, ident(b))
+                    for r in range(b):
+                        out.append(rv(i, d)[r].eq((r0[r] if f else r1[r]) - (corr[r] if l else 0)))
+                return out
+
+            def bwd_fact(i, d, last=None):
+                i = E.const(i)
+                full = mv(Dm(i), vsub(rv(i, d), mv(Um(i), sv(i + 1, d))))
+                lastv = mv(Dm(i), rv(i, d))
+                if last is None:
+                    return [sv(i, d)[r].eq(ite(i.eq(nb - 1), lastv[r], full[r])) for r in range(b)]
+                return [sv(i, d)[r].eq(lastv[r] if last else full[r]) for r in range(b)]
+            sizes = lambda: conj([Lc.R.eq(nb), Uc.R.eq(nb), Dinv.R.eq(nb), rhs.R.eq(nb * b)] + [X.R.eq(n_pts) for X in Xout])
+            boundary_rows = lambda: conj([X.at(0, d).eq(Bl(d)[j]) for j, X in enumerate(Xout) for d in range(D)] +
+                                         [X.at(n_pts - 1, d).eq(Br(d)[j]) for j, X in enumerate(Xout) for d in range(D)])
+            SK = [S.sk(0)]
+            S.loop(0, inv=lambda L: [('range', (L.i >= 0) & (L.i <= nb)), ('sizes', sizes()),
+                                     ('factorised', S.forall(0, L.i, lambda k: [x for d in DS for x in fwd_facts(k, d)], inst=SK))],
+                   variant=lambda L: nb - L.i, terms=lambda L: [L.i, L.i - 1, L.i + 1],
+                   local=dict(pre=lambda L: [('pd', conj([pdv.at(L.i, d).eq(P.at(L.i + 1, d) - P.at(L.i, d)) & pdv.at(L.i + 1, d).eq(P.at(L.i + 2, d) - P.at(L.i + 1, d)) for d in DS])),
+                                             ('k', (L.i >= 0) & (L.i < nb) & L.n.eq(n_pts) & L.num_blocks.eq(nb)),
+                                             ('boundary_blocks', conj([L.B_left.at(j, d).eq(Bl(d)[j]) & L.B_right.at(j, d).eq(Br(d)[j]) for j in range(b) for d in range(D)]))],
+                              post=lambda L: [('fwd_%d' % j, x) for j, x in enumerate([x for d in DS for x in fwd_facts(L.i, d)])]))
+            S.loop(1, inv=lambda L: [('range', (L.i >= -1) & (L.i <= nb - 2)), ('sizes', sizes() & sol.R.eq(nb * b)),
+                                     ('factorised', S.forall(0, nb, lambda k: [x for d in DS for x in fwd_facts(k, d)], inst=SK)),
+                                     ('back_substituted', S.forall(L.i + 1, L.num_blocks, lambda k: [x for d in DS for x in bwd_fact(k, d)], inst=SK)), ('nb', L.num_blocks.eq(nb))],
+                   variant=lambda L: L.i + 1, terms=lambda L: [L.i, L.i + 1, L.i + 2],
+                   local=dict(pre=lambda L: [('k', (L.i >= 0) & (L.i < nb - 1))],
+                              post=lambda L: [('bwd_%d' % j, x) for j, x in enumerate([x for d in DS for x in bwd_fact(L.i, d)])]))
+            copy_ord = 3
+            S.loop(copy_ord, inv=lambda L: [('range', (L.i >= 0) & (L.i <= nb)), ('sizes', sizes() & sol.R.eq(nb * b)), ('boundary_rows', boundary_rows()),
+                                            ('factorised', S.forall(0, nb, lambda k: [x for d in DS for x in fwd_facts(k, d)], inst=SK)),
+                                            ('back_substituted', S.forall(0, nb, lambda k: [x for d in DS for x in bwd_fact(k, d)], inst=[S.sk(0), S.sk(0) - 1])),
+                                            ('copied', S.forall(0, L.i, lambda k: [Xout[j].at(k + 1, d).eq(sol.at(k * b + j, d)) for j in range(b) for d in DS], inst=[S.sk(0), S.sk(0) - 1, S.sk(0) + 1]))],
+                   variant=lambda L: nb - L.i)
+
+            # ---- final step: the certificate  G = L e4 + e3 + D~ e1 + E2 w  (a polynomial identity, proved as a pure lemma) turns the
+            # factorisation facts (all residuals zero) into the optimality conditions by linear reasoning
+            if S.mode == 'verify':
+                def final_algebra(G):
+                    k = S.sk(0)
+                    inr = (k >= 0) & (k < nb)
+                    for d in DS:
+                        BS = BlockSpec(S, cls, k, d)
+                        for f in (1, 0):
+                            for l in (1, 0):
+                                guard = inr & (k.eq(0) if f else k > 0) & (k.eq(nb - 1) if l else k < nb - 1)
+                                facts = fwd_facts(k, d, (f, l)) + bwd_fact(k, d, l) + ([] if f else bwd_fact(k - 1, d, 0))
+                                xp = Bl(d) if f else sv(k - 1, d)
+                                xn = Br(d) if l else sv(k + 1, d)
+                                base = (BS.L, BS.D, BS.U, list(BS.rhs), Dm(k), Dm(k - 1), Um(k - 1), rv(k, d), rv(k - 1, d), xp, sv(k, d), xn)
+                                Dt, w, e1, E2, e3, e4, Gv = kkt_residuals(b, f, l, *base)
+                                # ghost names for the residuals (all zero by the factorisation facts), then the certificate identity
+                                zs = []
+                                for nm, vals in (('z1', e1), ('Z2', flat(E2)), ('z3', e3), ('z4', e4)):
+                                    for j, v in enumerate(vals):
+                                        z = S.fresh_real('%s_%d%d%d_%d' % (nm, d, f, l, j))
+                                        G.set(LV(z.args[0], REAL), v)
+                                        zs.append(z)
+                                lem = kkt_certificate(b, f, l)
+                                args = flat(BS.L) + flat(BS.D) + flat(BS.U) + list(BS.rhs) + flat(Dm(k)) + flat(Dm(k - 1)) + flat(Um(k - 1)) + rv(k, d) + rv(k - 1, d) + xp + sv(k, d) + xn + zs
+                                G.use(lem, *args)
+                                defs = [z.eq(v) for z, v in zip(zs, e1 + flat(E2) + e3 + e4)]
+                                cert = implies(lem.hyp(*args), lem.concl(*args))
+                                link = [Xout[j].at(k + 1, d).eq(sol.at(k * b + j, d)) for j in range(b)]
+                                link += [Xout[j].at(k, d).eq(xp[j]) for j in range(b)]
+                                link += [Xout[j].at(k + 2, d).eq(xn[j]) for j in range(b)]
+                                G.abstract_lemma('kkt_%d_f%d_l%d' % (d, f, l), [implies(guard, x) for x in facts + link] + defs + [cert],
+                                                 [implies(guard, g.eq(0)) for g in kkt_rows(k, d)])
+                S.ghost('exit', final_algebra)
 
     class SolveCoefficients(Contract):
         """Hermite closure: each segment matches the knot values and the knot derivatives of order < s at both ends"""
@@ -702,3 +814,160 @@ def make_energy_partials(cls):
 
 for _c in ORDER_OF:
     make_energy_partials(_c)
+
+
+# ------------------------------------------------------------------------------------------------ quintic / septic: block-tridiagonal optimality system (C02)
+from speclib import hermite_coeffs, right_end_derivative, left_end_derivative
+from expr import subst
+JUMP_ORDERS = {'QuinticSplineND': [4, 3], 'SepticSplineND': [4, 5, 6]}      # row r of the code's system is -jump of this derivative order
+
+
+def iv_pow_of(S, seg):
+    def f(p):
+        if p == 0:
+            return E.const(Fraction(1))
+        return tp_field(S, seg, 'h_inv' if p == 1 else 'h%d_inv' % p)
+    return f
+
+
+class BlockSpec(object):
+    """the optimality (KKT) conditions at interior knot i+1, for one coordinate d, as an affine map of the knot derivatives
+    (xp, xc, xn) of knots i, i+1, i+2:   row_r = -jump_{k_r} = sum L[r][j] xp[j] + D[r][j] xc[j] + U[r][j] xn[j] - rhs[r]
+    -- coefficients extracted from the first-principles Hermite pieces by differentiation (the map is affine)"""
+
+    def __init__(self, S, cls, i, d):
+        s = ORDER_OF[cls]
+        b = s - 1
+        P = S.v('spatial_points_') if S.has('spatial_points_') and not S.has('P') else S.v('P')
+        xs = {}
+        for nm in ('xp', 'xc', 'xn'):
+            xs[nm] = [E.var('BX_%s_%d' % (nm, j), REAL) for j in range(b)]
+        segL, segR = i, E.const(i) + 1
+        XL0 = [P.at(i, d)] + xs['xp']
+        XL1 = [P.at(E.const(i) + 1, d)] + xs['xc']
+        XR0 = [P.at(E.const(i) + 1, d)] + xs['xc']
+        XR1 = [P.at(E.const(i) + 2, d)] + xs['xn']
+        rows = []
+        for k in JUMP_ORDERS[cls]:
+            jump = left_end_derivative(s, k, iv_pow_of(S, segR), XR0, XR1) - right_end_derivative(s, k, iv_pow_of(S, segL), XL0, XL1)
+            rows.append(-jump)
+        zero = dict((v.args[0], E.const(Fraction(0))) for nm in xs for v in xs[nm])
+        self.b = b
+        self.rhs = [-(subst(r, zero)) for r in rows]
+        coef = lambda r, v: ad.d_expr(r, {v.args[0]: E.const(Fraction(1))})
+        self.L = [[coef(rows[r], xs['xp'][j]) for j in range(b)] for r in range(b)]
+        self.D = [[coef(rows[r], xs['xc'][j]) for j in range(b)] for r in range(b)]
+        self.U = [[coef(rows[r], xs['xn'][j]) for j in range(b)] for r in range(b)]
+        self.rows = rows
+        self.xs = xs
+
+    def jump_rows_at(self, xp, xc, xn):
+        m = {}
+        for nm, vals in (('xp', xp), ('xc', xc), ('xn', xn)):
+            for v, val in zip(self.xs[nm], vals):
+                m[v.args[0]] = E.const(val)
+        return [subst(r, m) for r in self.rows]
+
+
+def flat(A):
+    return [x for row in A for x in row]
+
+
+def unflat(xs, b):
+    return [list(xs[r * b:(r + 1) * b]) for r in range(b)]
+
+
+_KKT = {}
+
+
+def kkt_residuals(b, first, last, L, D, U, r, Dk, Dp, Up, rk, rp, xp, xc, xn):
+    """residuals of the factorisation facts and the assembled optimality rows"""
+    Dt = D if first else msub(D, mm(L, mm(Dp, Up)))
+    lower = mv(L, xp) if first else mv(L, mv(Dp, rp))
+    corr = mv(U, xn) if last else [E.const(Fraction(0))] * b
+    e3 = vsub(rk, vsub(vsub(r, lower), corr))
+    w = rk if last else vsub(rk, mv(U, xn))
+    e1 = vsub(xc, mv(Dk, w))
+    E2 = msub(mm(Dt, Dk), ident(b))
+    e4 = [E.const(Fraction(0))] * b if first else vsub(xp, mv(Dp, vsub(rp, mv(Up, xc))))
+    G = vsub([x + y + z for x, y, z in zip(mv(L, xp), mv(D, xc), mv(U, xn))], r)
+    return Dt, w, e1, E2, e3, e4, G
+
+
+def kkt_certificate(b, first, last):
+    """pure lemma (a polynomial identity once the definitions are substituted): with z1, Z2, z3, z4 naming the residuals of the
+    factorisation facts (back substitution of block k, pivot inverse, eliminated right-hand side, back substitution of block k-1)
+        L xp + D xc + U xn - r  ==  L z4 + z3 + D~ z1 + Z2 w"""
+    key = (b, first, last)
+    if key in _KKT:
+        return _KKT[key]
+    nbase = 3 * b * b + b + 3 * b * b + 2 * b + 3 * b
+    n = nbase + b + b * b + b + b
+
+    def split(a):
+        a = list(a)
+        pos = [0]
+
+        def take(k):
+            r = a[pos[0]:pos[0] + k]
+            pos[0] += k
+            return r
+        L, D, U = unflat(take(b * b), b), unflat(take(b * b), b), unflat(take(b * b), b)
+        r = take(b)
+        Dk, Dp, Up = unflat(take(b * b), b), unflat(take(b * b), b), unflat(take(b * b), b)
+        rk, rp = take(b), take(b)
+        xp, xc, xn = take(b), take(b), take(b)
+        z1, Z2, z3, z4 = take(b), unflat(take(b * b), b), take(b), take(b)
+        return (L, D, U, r, Dk, Dp, Up, rk, rp, xp, xc, xn), (z1, Z2, z3, z4)
+
+    def hyp(*a):
+        base, (z1, Z2, z3, z4) = split(a)
+        Dt, w, e1, E2, e3, e4, G = kkt_residuals(b, first, last, *base)
+        return conj(veq(z1, e1) + meq(Z2, E2) + veq(z3, e3) + veq(z4, e4))
+
+    def concl(*a):
+        base, (z1, Z2, z3, z4) = split(a)
+        L = base[0]
+        Dt, w, e1, E2, e3, e4, G = kkt_residuals(b, first, last, *base)
+        rhs = [x + y + z + t for x, y, z, t in zip(mv(L, z4), z3, mv(Dt, z1), mv(Z2, w))]
+        return conj([g.eq(h) for g, h in zip(G, rhs)])
+    lem = PureLemma('kkt_certificate_b%d_f%d_l%d' % (b, first, last), n, hyp, concl)
+    _KKT[key] = lem
+    return lem
+
+
+def mat_of(store, idx, b):
+    """b x b block stored row-major in row idx of a cache matrix"""
+    return [[store.at(idx, r * b + c) for c in range(b)] for r in range(b)]
+
+
+def mm(A, B):
+    return [[esum([A[r][k] * B[k][c] for k in range(len(B))]) for c in range(len(B[0]))] for r in range(len(A))]
+
+
+def mv(A, x):
+    return [esum([A[r][k] * x[k] for k in range(len(x))]) for r in range(len(A))]
+
+
+def msub(A, B):
+    return [[A[r][c] - B[r][c] for c in range(len(A[0]))] for r in range(len(A))]
+
+
+def vsub(a, b):
+    return [x - y for x, y in zip(a, b)]
+
+
+def meq(A, B):
+    return [A[r][c].eq(B[r][c]) for r in range(len(A)) for c in range(len(A[0]))]
+
+
+def veq(a, b):
+    return [x.eq(y) for x, y in zip(a, b)]
+
+
+def ident(b):
+    return [[E.const(Fraction(1 if r == c else 0)) for c in range(b)] for r in range(b)]
+
+
+def tr_(A):
+    return [[A[c][r] for c in range(len(A))] for r in range(len(A[0]))]
